@@ -716,11 +716,19 @@ void QXmppOutgoingClient::handlePacketReceived(const QDomElement &nodeRecv)
 
 HandleElementResult QXmppOutgoingClient::handleElement(const QDomElement &nodeRecv)
 {
-    // No stanza is processed (and possibly answered) over an unencrypted link if TLS is required.
-    // A server sending stanzas before STARTTLS violates RFC 6120, section 5.3.1.
-    if (nodeRecv.namespaceURI() == ns_client && !socket()->isEncrypted() &&
-        configuration().streamSecurityMode() == QXmppConfiguration::TLSRequired) {
-        return Rejected;
+    // Nothing but stream-level negotiation is processed (and possibly answered) over an unencrypted
+    // link if TLS is required: stream features and stream errors (the answers to <starttls/> go to
+    // the STARTTLS listener, not through this function). A server sending anything else before
+    // STARTTLS violates RFC 6120, section 5.3.1. The namespace of the element must not matter: an
+    // <iq/> in a foreign or empty namespace reaches the IQ manager and the client extensions
+    // through elementReceived() just like one in jabber:client, and <r/>/<a/> reach the stream
+    // management code.
+    if (!socket()->isEncrypted() && configuration().streamSecurityMode() == QXmppConfiguration::TLSRequired) {
+        const bool streamLevel = QXmppStreamFeatures::isStreamFeatures(nodeRecv) ||
+            (nodeRecv.namespaceURI() == ns_stream && nodeRecv.tagName() == u"error");
+        if (!streamLevel) {
+            return Rejected;
+        }
     }
 
     // handle SM acks, stanza counter and IQ responses
